@@ -365,7 +365,7 @@ fn dnsrace(args: &[&str]) -> String {
     let k: usize = args[1].parse().unwrap();
     let name = String::from_utf8(unhex(args[2])).unwrap();
     let rt = tokio::runtime::Builder::new_multi_thread()
-        .worker_threads(4)
+        .worker_threads(8)
         .enable_all()
         .build()
         .unwrap();
